@@ -9,8 +9,39 @@ import PersimVerif.Lemmas.MatchingReindex
 `Props/C07.lean` proves the laws for the specification values.  `Props/C01.lean` / `Props/C02.lean`
 prove that the models of `persim.bottleneck` / `persim.wasserstein` return exactly those values, for
 every oracle / assignment solver honouring its contract.  Composing the two gives the laws for what
-the models return — for diagrams of any size and, in the bottleneck case, for any two oracles (so
-in particular across hash seeds).
+the models return — for diagrams of any size and for any oracles / solvers: wherever a law compares
+two or three runs, each run may use a *different* oracle (solver) honouring the contract (so in
+particular the laws hold across hash seeds); the three-run laws have a one-oracle form
+(`model_bn_triangle`, `model_ws_triangle`) and a three-oracle form (`model_bn_triangle_oracles`,
+`model_ws_triangle_solvers`).
+
+## The domain restriction `ProperDgm` (every finite point has `birth ≤ death`) is NECESSARY
+
+`ProperDgm` is a hypothesis of every bottleneck law (C01 identifies the model's value with the
+specification value only under it) and of `model_ws_nonneg`, `model_ws_reorder_zero`,
+`model_ws_triangle` (middle diagram) and `model_bn_le_ws`.  It is not an artefact of the proofs: the
+laws are FALSE for the models — and for the real code — without it.  The real code returns
+`bottleneck([[1,0]], [[1,0]]) = -0.5` and `wasserstein([[1,0]], [[1,0]]) = -1.414…` (both diagonal
+costs `(d-b)/2`, `(d-b)/√2` are negative, and matching both points to the diagonal beats matching them
+to each other at cost 0).  The theorems at the end of this file say so about the MODELS, for every
+oracle / solver honouring its contract:
+
+* `improper_bn_negative` — the bottleneck model returns `-1/2` on `[(1,0)]` vs `[(1,0)]`: non-negativity
+  (`model_bn_nonneg`) and zero-on-reordering (`model_bn_reorder_zero`) fail without the guard;
+* `improper_ws_negative` — the Wasserstein model returns `-2/√2 = -√2` there: `model_ws_nonneg` and
+  `model_ws_reorder_zero` fail without the guard;
+* `improper_bn_le_ws_fails` — on the same input the bottleneck value exceeds the Wasserstein value;
+* `improper_ws_triangle_fails` — with the improper `[(1,0)]` as the MIDDLE diagram between two empty
+  diagrams the triangle inequality fails (`0 ≤ -1/√2 - 1/√2` is false).
+
+The Wasserstein laws that carry no `ProperDgm` hypothesis (symmetry, reordering invariance, added
+diagonal points, translation, scaling, the value against an empty side) hold for improper inputs too.
+
+Other remarks: `model_bn_scale` asks `0 < l` (as `C07.bottleneck_scale` does); `model_bn_scale_nonneg`
+extends it to `0 ≤ l` (at `l = 0` both scaled diagrams consist of diagonal points), matching
+`model_ws_scale`.  The added-diagonal-point laws have a one-point form and a list form
+(`…_add_diagonal_list`, any list of diagonal points, inserted anywhere); the against-an-empty-side laws
+have a right and a left form.
 -/
 namespace PersimVerif.C07
 open PersimVerif.Spec
@@ -71,6 +102,18 @@ theorem model_bn_triangle {o : Bottleneck.Graph → Bottleneck.Matching} (ho : B
   bottleneck_triangle_ineq _ _ _ (bnReturns_isBn ho h1 h2 h12) (bnReturns_isBn ho h2 h3 h23)
     (bnReturns_isBn ho h1 h3 h13)
 
+/-- **triangle inequality, each of the three runs with its own oracle** (three hash seeds): by uniqueness
+    of the returned value (`model_bn_oracle_irrelevant`) the runs may be brought to one oracle -/
+theorem model_bn_triangle_oracles {o12 o23 o13 : Bottleneck.Graph → Bottleneck.Matching}
+    (ho12 : Bottleneck.OracleMax o12) (ho23 : Bottleneck.OracleMax o23) (ho13 : Bottleneck.OracleMax o13)
+    {d1 d2 d3 : List (ℝ × Option ℝ)} (h1 : ProperDgm d1) (h2 : ProperDgm d2) (h3 : ProperDgm d3)
+    {v12 v23 v13 : ℝ} (h12 : BnReturns o12 d1 d2 v12) (h23 : BnReturns o23 d2 d3 v23)
+    (h13 : BnReturns o13 d1 d3 v13) : v13 ≤ v12 + v23 := by
+  obtain ⟨w23, hw23, -⟩ := model_bn_is_spec ho12 h2 h3
+  obtain ⟨w13, hw13, -⟩ := model_bn_is_spec ho12 h1 h3
+  rw [model_bn_oracle_irrelevant ho23 ho12 h2 h3 h23 hw23, model_bn_oracle_irrelevant ho13 ho12 h1 h3 h13 hw13]
+  exact model_bn_triangle ho12 h1 h2 h3 h12 hw23 hw13
+
 /-- **non-negativity** -/
 theorem model_bn_nonneg {o : Bottleneck.Graph → Bottleneck.Matching} (ho : Bottleneck.OracleMax o)
     {d1 d2 : List (ℝ × Option ℝ)} (h1 : ProperDgm d1) (h2 : ProperDgm d2) {v : ℝ} (h : BnReturns o d1 d2 v) :
@@ -120,6 +163,24 @@ theorem model_ws_triangle {l : Wasserstein.Mat ℝ → List (Nat × Nat)} (hl : 
     w13 ≤ w12 + w23 :=
   wasserstein_triangle_ineq _ _ _ (fun j => h2 _ (List.get_mem _ j)) (wsReturns_isWs hl h12)
     (wsReturns_isWs hl h23) (wsReturns_isWs hl h13)
+
+/-- **the returned value does not depend on the assignment solver** -/
+theorem model_ws_solver_irrelevant {l l' : Wasserstein.Mat ℝ → List (Nat × Nat)} (hl : WsLemmas.LsaContract l)
+    (hl' : WsLemmas.LsaContract l') {d1 d2 : Wasserstein.Dgm ℝ} {w w' : ℝ}
+    (h : WsReturns l d1 d2 w) (h' : WsReturns l' d1 d2 w') : w = w' :=
+  IsMinSum.unique (wsReturns_isWs hl h) (wsReturns_isWs hl' h')
+
+/-- **triangle inequality, each of the three runs with its own solver** (middle diagram proper): by
+    uniqueness of the returned value (`model_ws_solver_irrelevant`) the runs may be brought to one solver -/
+theorem model_ws_triangle_solvers {l12 l23 l13 : Wasserstein.Mat ℝ → List (Nat × Nat)}
+    (hl12 : WsLemmas.LsaContract l12) (hl23 : WsLemmas.LsaContract l23) (hl13 : WsLemmas.LsaContract l13)
+    {d1 d2 d3 : Wasserstein.Dgm ℝ} (h2 : ∀ p ∈ Wasserstein.finitePart d2, p.1 ≤ p.2)
+    {w12 w23 w13 : ℝ} (h12 : WsReturns l12 d1 d2 w12) (h23 : WsReturns l23 d2 d3 w23)
+    (h13 : WsReturns l13 d1 d3 w13) : w13 ≤ w12 + w23 := by
+  obtain ⟨u23, hu23, -⟩ := model_ws_is_spec hl12 d2 d3
+  obtain ⟨u13, hu13, -⟩ := model_ws_is_spec hl12 d1 d3
+  rw [model_ws_solver_irrelevant hl23 hl12 h23 hu23, model_ws_solver_irrelevant hl13 hl12 h13 hu13]
+  exact model_ws_triangle hl12 h2 h12 hu23 hu13
 
 /-! ## The remaining laws of the statement, for what the MODELS return
 
@@ -179,6 +240,38 @@ theorem isWs_cons_diag {M : Type} [Fintype M] [DecidableEq M] (S : M → Pt) (T 
   rw [← wasserstein_add_diagonal S T.get a w]
   exact isWs_reindex (Equiv.refl M) (consIdx (a, a) T) (fun _ => rfl) (get_consIdx (a, a) T) w
 
+/-- any list of diagonal points in front of the second diagram changes nothing (induction on the list) -/
+theorem isBn_diag_append {M : Type} (S : M → Pt) (D T : List Pt) (hD : ∀ p ∈ D, p.1 = p.2) (d : ℝ) :
+    IsBn S (D ++ T).get d ↔ IsBn S T.get d := by
+  induction D with
+  | nil => exact Iff.rfl
+  | cons p D ih =>
+    obtain ⟨a, b⟩ := p
+    have hab : a = b := hD (a, b) (by simp)
+    subst hab
+    rw [List.cons_append, isBn_cons_diag]
+    exact ih fun q hq => hD q (List.mem_cons_of_mem _ hq)
+
+theorem isWs_diag_append {M : Type} [Fintype M] [DecidableEq M] (S : M → Pt) (D T : List Pt)
+    (hD : ∀ p ∈ D, p.1 = p.2) (w : ℝ) : IsWs S (D ++ T).get w ↔ IsWs S T.get w := by
+  induction D with
+  | nil => exact Iff.rfl
+  | cons p D ih =>
+    obtain ⟨a, b⟩ := p
+    have hab : a = b := hD (a, b) (by simp)
+    subst hab
+    rw [List.cons_append, isWs_cons_diag]
+    exact ih fun q hq => hD q (List.mem_cons_of_mem _ hq)
+
+/-- two diagrams made of diagonal points only are at bottleneck distance `0` -/
+theorem isBn_all_diag {l1 l2 : List Pt} (h1 : ∀ p ∈ l1, p.1 = p.2) (h2 : ∀ p ∈ l2, p.1 = p.2) :
+    IsBn l1.get l2.get 0 := by
+  have e : IsBn ([] : List Pt).get ([] : List Pt).get 0 := bottleneck_perm_zero_list (List.Perm.refl _)
+  have a : IsBn ([] : List Pt).get l1.get 0 :=
+    (isBn_congr_list rfl (List.append_nil l1) 0).mp ((isBn_diag_append _ l1 [] h1 0).mpr e)
+  have b : IsBn l1.get ([] : List Pt).get 0 := bottleneck_symm _ _ a
+  exact (isBn_congr_list rfl (List.append_nil l2) 0).mp ((isBn_diag_append _ l2 [] h2 0).mpr b)
+
 theorem isBn_map (f : Pt → Pt) (l1 l2 : List Pt) (d : ℝ) :
     IsBn (l1.map f).get (l2.map f).get d ↔ IsBn (fun i => f (l1.get i)) (fun j => f (l2.get j)) d :=
   isBn_reindex (mapIdx f l1) (mapIdx f l2) (get_mapIdx f l1) (get_mapIdx f l2) d
@@ -232,6 +325,29 @@ theorem ProperDgm.cons_diag {d : List (ℝ × Option ℝ)} (h : ProperDgm d) (a 
   rcases hp with rfl | hp
   · exact le_refl _
   · exact h p hp
+
+/-- the raw diagonal points `(a, a)`, `a` in `as` -/
+def diagDgm (as : List ℝ) : List (ℝ × Option ℝ) := as.map fun a => (a, some a)
+
+theorem finitePart_diagDgm_append (as : List ℝ) (d : List (ℝ × Option ℝ)) :
+    Wasserstein.finitePart (diagDgm as ++ d) = as.map (fun a => (a, a)) ++ Wasserstein.finitePart d := by
+  induction as with
+  | nil => rfl
+  | cons a as ih =>
+    show Wasserstein.finitePart ((a, some a) :: (diagDgm as ++ d)) = _
+    rw [finitePart_cons_some, ih]
+    rfl
+
+theorem diag_map_diag (as : List ℝ) : ∀ p ∈ as.map (fun a => ((a, a) : Pt)), p.1 = p.2 := by
+  intro p hp
+  obtain ⟨a, -, rfl⟩ := List.mem_map.mp hp
+  rfl
+
+theorem ProperDgm.append_diag {d : List (ℝ × Option ℝ)} (h : ProperDgm d) (as : List ℝ) :
+    ProperDgm (diagDgm as ++ d) := by
+  induction as with
+  | nil => exact h
+  | cons a as ih => exact ih.cons_diag a
 
 theorem ProperDgm.shift {d : List (ℝ × Option ℝ)} (h : ProperDgm d) (t : ℝ) : ProperDgm (shiftDgm t d) := by
   rw [properDgm_iff] at h ⊢
@@ -295,6 +411,29 @@ theorem model_bn_add_diagonal_left {o o' : Bottleneck.Graph → Bottleneck.Match
   rw [finitePart_cons_some, isBn_cons_diag] at b'
   exact IsBottleneck.unique b' a1
 
+/-- **any list of points on the diagonal added anywhere to the second diagram changes nothing**
+    (`d2'` is any reordering of `d2` with the points `(a, a)`, `a ∈ as`, added) -/
+theorem model_bn_add_diagonal_list {o o' : Bottleneck.Graph → Bottleneck.Matching} (ho : Bottleneck.OracleMax o)
+    (ho' : Bottleneck.OracleMax o') {d1 d2 d2' : List (ℝ × Option ℝ)} (h1 : ProperDgm d1) (h2 : ProperDgm d2)
+    (as : List ℝ) (hp : d2'.Perm (diagDgm as ++ d2)) {v v' : ℝ}
+    (h : BnReturns o d1 d2 v) (h' : BnReturns o' d1 d2' v') : v' = v := by
+  have a1 := bnReturns_isBn' ho h1 h2 h
+  have b := bnReturns_isBn' ho' h1 ((h2.append_diag as).perm hp) h'
+  have b' := (isBn_perm (List.Perm.refl _) (finitePart_perm hp) v').mpr b
+  rw [finitePart_diagDgm_append, isBn_diag_append _ _ _ (diag_map_diag as)] at b'
+  exact IsBottleneck.unique b' a1
+
+/-- … and to the first diagram -/
+theorem model_bn_add_diagonal_list_left {o o' : Bottleneck.Graph → Bottleneck.Matching} (ho : Bottleneck.OracleMax o)
+    (ho' : Bottleneck.OracleMax o') {d1 d1' d2 : List (ℝ × Option ℝ)} (h1 : ProperDgm d1) (h2 : ProperDgm d2)
+    (as : List ℝ) (hp : d1'.Perm (diagDgm as ++ d1)) {v v' : ℝ}
+    (h : BnReturns o d1 d2 v) (h' : BnReturns o' d1' d2 v') : v' = v := by
+  have a1 := bottleneck_symm _ _ (bnReturns_isBn' ho h1 h2 h)
+  have b := bottleneck_symm _ _ (bnReturns_isBn' ho' ((h1.append_diag as).perm hp) h2 h')
+  have b' := (isBn_perm (List.Perm.refl _) (finitePart_perm hp) v').mpr b
+  rw [finitePart_diagDgm_append, isBn_diag_append _ _ _ (diag_map_diag as)] at b'
+  exact IsBottleneck.unique b' a1
+
 /-- **translating both diagrams along the diagonal changes nothing** -/
 theorem model_bn_translate {o o' : Bottleneck.Graph → Bottleneck.Matching} (ho : Bottleneck.OracleMax o)
     (ho' : Bottleneck.OracleMax o') {d1 d2 : List (ℝ × Option ℝ)} (h1 : ProperDgm d1) (h2 : ProperDgm d2)
@@ -305,7 +444,8 @@ theorem model_bn_translate {o o' : Bottleneck.Graph → Bottleneck.Matching} (ho
   rw [shiftDgm, finitePart_mapDgm, finitePart_mapDgm, isBn_map] at b
   exact IsBottleneck.unique ((bottleneck_translate _ _ t v').mp b) a
 
-/-- **scaling both diagrams by `l > 0` scales the value by `l`** -/
+/-- **scaling both diagrams by `l > 0` scales the value by `l`** (`C07.bottleneck_scale` asks `0 < l`; the case
+    `l = 0` is covered by `model_bn_scale_nonneg` below, which has the `0 ≤ l` guard of `model_ws_scale`) -/
 theorem model_bn_scale {o o' : Bottleneck.Graph → Bottleneck.Matching} (ho : Bottleneck.OracleMax o)
     (ho' : Bottleneck.OracleMax o') {d1 d2 : List (ℝ × Option ℝ)} (h1 : ProperDgm d1) (h2 : ProperDgm d2)
     {l : ℝ} (hl : 0 < l) {v v' : ℝ} (h : BnReturns o d1 d2 v) (h' : BnReturns o' (scaleDgm l d1) (scaleDgm l d2) v') :
@@ -324,6 +464,40 @@ theorem model_bn_vs_empty {o : Bottleneck.Graph → Bottleneck.Matching} (ho : B
       ∀ v', 0 ≤ v' → (∀ p ∈ Wasserstein.finitePart d1, (p.2 - p.1) / 2 ≤ v') → v ≤ v' := by
   have h2 : ProperDgm d2 := by rw [properDgm_iff, hE]; intro p hp; cases hp
   have a := bnReturns_isBn' ho h1 h2 h
+  have a' := (isBn_congr_list rfl hE v).mp a
+  have : IsEmpty (Fin ([] : List Pt).length) := inferInstanceAs (IsEmpty (Fin 0))
+  rw [bottleneck_vs_empty] at a'
+  obtain ⟨⟨h0, hub⟩, hl⟩ := a'
+  refine ⟨⟨h0, fun p hp => ?_⟩, fun v' hv0 hv' => hl v' hv0 fun i => hv' _ (List.get_mem _ i)⟩
+  obtain ⟨i, rfl⟩ := List.get_of_mem hp
+  exact hub i
+
+/-- **scaling both diagrams by `l ≥ 0` scales the value by `l`**: `model_bn_scale` extended to `l = 0`, where
+    both scaled diagrams consist of the diagonal point `(0, 0)` repeated and the model returns `0` -/
+theorem model_bn_scale_nonneg {o o' : Bottleneck.Graph → Bottleneck.Matching} (ho : Bottleneck.OracleMax o)
+    (ho' : Bottleneck.OracleMax o') {d1 d2 : List (ℝ × Option ℝ)} (h1 : ProperDgm d1) (h2 : ProperDgm d2)
+    {l : ℝ} (hl : 0 ≤ l) {v v' : ℝ} (h : BnReturns o d1 d2 v) (h' : BnReturns o' (scaleDgm l d1) (scaleDgm l d2) v') :
+    v' = l * v := by
+  rcases hl.lt_or_eq with hpos | hzero
+  · exact model_bn_scale ho ho' h1 h2 hpos h h'
+  · subst hzero
+    have b := bnReturns_isBn' ho' (h1.scale le_rfl) (h2.scale le_rfl) h'
+    rw [scaleDgm, finitePart_mapDgm, finitePart_mapDgm] at b
+    have hd : ∀ (l0 : List Pt), ∀ p ∈ l0.map (fun p => (((0 : ℝ) * p.1, (0 : ℝ) * p.2) : Pt)), p.1 = p.2 := by
+      intro l0 p hp
+      obtain ⟨q, -, rfl⟩ := List.mem_map.mp hp
+      simp
+    rw [zero_mul]
+    exact IsBottleneck.unique b (isBn_all_diag (hd _) (hd _))
+
+/-- **against a first diagram without finite points** (the left-side form of `model_bn_vs_empty`, by symmetry) -/
+theorem model_bn_vs_empty_left {o : Bottleneck.Graph → Bottleneck.Matching} (ho : Bottleneck.OracleMax o)
+    {d1 d2 : List (ℝ × Option ℝ)} (h2 : ProperDgm d2) (hE : Wasserstein.finitePart d1 = []) {v : ℝ}
+    (h : BnReturns o d1 d2 v) :
+    (0 ≤ v ∧ ∀ p ∈ Wasserstein.finitePart d2, (p.2 - p.1) / 2 ≤ v) ∧
+      ∀ v', 0 ≤ v' → (∀ p ∈ Wasserstein.finitePart d2, (p.2 - p.1) / 2 ≤ v') → v ≤ v' := by
+  have h1 : ProperDgm d1 := by rw [properDgm_iff, hE]; intro p hp; cases hp
+  have a := bottleneck_symm _ _ (bnReturns_isBn' ho h1 h2 h)
   have a' := (isBn_congr_list rfl hE v).mp a
   have : IsEmpty (Fin ([] : List Pt).length) := inferInstanceAs (IsEmpty (Fin 0))
   rw [bottleneck_vs_empty] at a'
@@ -378,6 +552,25 @@ theorem model_ws_add_diagonal_left {l l' : Wasserstein.Mat ℝ → List (Nat × 
   rw [finitePart_cons_some, isWs_cons_diag] at b'
   exact IsMinSum.unique b' (wasserstein_symm _ _ (wsReturns_isWs hl h))
 
+/-- **any list of points on the diagonal added anywhere to the second diagram changes nothing** -/
+theorem model_ws_add_diagonal_list {l l' : Wasserstein.Mat ℝ → List (Nat × Nat)} (hl : WsLemmas.LsaContract l)
+    (hl' : WsLemmas.LsaContract l') {d1 d2 d2' : Wasserstein.Dgm ℝ}
+    (as : List ℝ) (hp : d2'.Perm (diagDgm as ++ d2)) {w w' : ℝ}
+    (h : WsReturns l d1 d2 w) (h' : WsReturns l' d1 d2' w') : w' = w := by
+  have b' := (isWs_perm (List.Perm.refl _) (finitePart_perm hp) w').mpr (wsReturns_isWs hl' h')
+  rw [finitePart_diagDgm_append, isWs_diag_append _ _ _ (diag_map_diag as)] at b'
+  exact IsMinSum.unique b' (wsReturns_isWs hl h)
+
+/-- … and to the first diagram -/
+theorem model_ws_add_diagonal_list_left {l l' : Wasserstein.Mat ℝ → List (Nat × Nat)} (hl : WsLemmas.LsaContract l)
+    (hl' : WsLemmas.LsaContract l') {d1 d1' d2 : Wasserstein.Dgm ℝ}
+    (as : List ℝ) (hp : d1'.Perm (diagDgm as ++ d1)) {w w' : ℝ}
+    (h : WsReturns l d1 d2 w) (h' : WsReturns l' d1' d2 w') : w' = w := by
+  have b' := (isWs_perm (List.Perm.refl _) (finitePart_perm hp) w').mpr
+    (wasserstein_symm _ _ (wsReturns_isWs hl' h'))
+  rw [finitePart_diagDgm_append, isWs_diag_append _ _ _ (diag_map_diag as)] at b'
+  exact IsMinSum.unique b' (wasserstein_symm _ _ (wsReturns_isWs hl h))
+
 /-- **translating both diagrams along the diagonal changes nothing** -/
 theorem model_ws_translate {l l' : Wasserstein.Mat ℝ → List (Nat × Nat)} (hl : WsLemmas.LsaContract l)
     (hl' : WsLemmas.LsaContract l') {d1 d2 : Wasserstein.Dgm ℝ}
@@ -408,6 +601,18 @@ theorem model_ws_vs_empty {l : Wasserstein.Mat ℝ → List (Nat × Nat)} (hl : 
   simp only [List.get_eq_getElem]
   exact Fin.sum_univ_fun_getElem (Wasserstein.finitePart d1) fun p => (p.2 - p.1) / Real.sqrt 2
 
+/-- **against a first diagram without finite points** (the left-side form of `model_ws_vs_empty`, by symmetry) -/
+theorem model_ws_vs_empty_left {l : Wasserstein.Mat ℝ → List (Nat × Nat)} (hl : WsLemmas.LsaContract l)
+    {d1 d2 : Wasserstein.Dgm ℝ} (hE : Wasserstein.finitePart d1 = []) {w : ℝ}
+    (h : WsReturns l d1 d2 w) :
+    w = ((Wasserstein.finitePart d2).map fun p => (p.2 - p.1) / Real.sqrt 2).sum := by
+  have a := (isWs_congr_list rfl hE w).mp (wasserstein_symm _ _ (wsReturns_isWs hl h))
+  have : IsEmpty (Fin ([] : List Pt).length) := inferInstanceAs (IsEmpty (Fin 0))
+  have e := IsMinSum.unique a (wasserstein_vs_empty (Wasserstein.finitePart d2).get ([] : List Pt).get)
+  rw [e]
+  simp only [List.get_eq_getElem]
+  exact Fin.sum_univ_fun_getElem (Wasserstein.finitePart d2) fun p => (p.2 - p.1) / Real.sqrt 2
+
 /-- **the bottleneck value never exceeds the Wasserstein value** (same inputs, any oracle / solver) -/
 theorem model_bn_le_ws {o : Bottleneck.Graph → Bottleneck.Matching} (ho : Bottleneck.OracleMax o)
     {l : Wasserstein.Mat ℝ → List (Nat × Nat)} (hl : WsLemmas.LsaContract l)
@@ -416,12 +621,30 @@ theorem model_bn_le_ws {o : Bottleneck.Graph → Bottleneck.Matching} (ho : Bott
   bottleneck_le_wasserstein _ _ (wsReturns_proper ((properDgm_iff d1).mp h1)) (wsReturns_proper ((properDgm_iff d2).mp h2))
     (bnReturns_isBn' ho h1 h2 hb) (wsReturns_isWs hl hw)
 
-/-! ### non-vacuity: the hypotheses are met by concrete non-trivial inputs, and the runs exist -/
+/-! ### non-vacuity: every law is applied to concrete non-trivial inputs whose runs exist
+
+Each `example` below obtains an oracle / a solver honouring the contract (`C01.oracleMax_exists`,
+`C02.lsaContract_satisfiable`), obtains the runs of the models on concrete diagrams
+(`model_bn_is_spec` / `model_ws_is_spec`: the runs exist), and applies the laws to them — so every hypothesis
+of every law is seen to be satisfiable together with the others, on diagrams with several points, a point of
+infinite death, reorderings that move points, and added diagonal points placed in the middle. -/
 
 /-- two proper points and a point of infinite death -/
 def dgmA : List (ℝ × Option ℝ) := [(0, some 3), (1, some 4), (2, none)]
 /-- a proper point -/
 def dgmB : List (ℝ × Option ℝ) := [(1, some 2)]
+/-- two proper points around a point of infinite death -/
+def dgmC : List (ℝ × Option ℝ) := [(0, some 1), (7, none), (2, some 5)]
+/-- no finite point at all (emptied by the `isfinite` filter) -/
+def dgmE : List (ℝ × Option ℝ) := [(9, none)]
+/-- `dgmB` with the diagonal point `(5,5)` behind it -/
+def dgmB1 : List (ℝ × Option ℝ) := [(1, some 2), (5, some 5)]
+/-- `dgmB` between the diagonal points `(6,6)` and `(5,5)` -/
+def dgmB2 : List (ℝ × Option ℝ) := [(6, some 6), (1, some 2), (5, some 5)]
+/-- `dgmA` with the diagonal point `(5,5)` in the middle -/
+def dgmA1 : List (ℝ × Option ℝ) := [(0, some 3), (5, some 5), (1, some 4), (2, none)]
+/-- `dgmA` with the diagonal points `(5,5)`, `(6,6)` in the middle -/
+def dgmA2 : List (ℝ × Option ℝ) := [(0, some 3), (5, some 5), (1, some 4), (6, some 6), (2, none)]
 
 theorem dgmA_proper : ProperDgm dgmA := by
   rw [properDgm_iff]; intro p hp
@@ -433,46 +656,329 @@ theorem dgmB_proper : ProperDgm dgmB := by
   simp [dgmB, Wasserstein.finitePart] at hp
   subst hp; norm_num
 
--- reorder: a genuinely different order of `dgmA`; the run exists and returns 0
-example : ∃ (o : Bottleneck.Graph → Bottleneck.Matching) (v : ℝ), Bottleneck.OracleMax o ∧ ProperDgm dgmA ∧
-    dgmA.Perm dgmA.reverse ∧ BnReturns o dgmA dgmA.reverse v ∧ v = 0 := by
-  obtain ⟨o, ho⟩ := C01.oracleMax_exists
-  have hp : dgmA.Perm dgmA.reverse := (List.reverse_perm dgmA).symm
-  obtain ⟨v, hv, -⟩ := model_bn_is_spec ho dgmA_proper (dgmA_proper.perm hp.symm)
-  exact ⟨o, v, ho, dgmA_proper, hp, hv, model_bn_reorder_zero ho dgmA_proper hp hv⟩
+theorem dgmC_proper : ProperDgm dgmC := by
+  rw [properDgm_iff]; intro p hp
+  simp [dgmC, Wasserstein.finitePart] at hp
+  rcases hp with rfl | rfl <;> norm_num
 
--- added diagonal point (inserted in the middle), translation, scaling: all runs exist
-example : ∃ (o : Bottleneck.Graph → Bottleneck.Matching) (v v1 v2 v3 : ℝ), Bottleneck.OracleMax o ∧
-    BnReturns o dgmA dgmB v ∧ BnReturns o dgmA ((1, some 2) :: (5, some 5) :: []) v1 ∧
-    BnReturns o (shiftDgm 7 dgmA) (shiftDgm 7 dgmB) v2 ∧ BnReturns o (scaleDgm 3 dgmA) (scaleDgm 3 dgmB) v3 ∧
-    v1 = v ∧ v2 = v ∧ v3 = 3 * v := by
+theorem dgmE_proper : ProperDgm dgmE := by
+  rw [properDgm_iff]; intro p hp; simp [dgmE, Wasserstein.finitePart] at hp
+
+theorem dgmE_finitePart : Wasserstein.finitePart dgmE = [] := rfl
+
+theorem dgmB1_perm : dgmB1.Perm ((5, some 5) :: dgmB) := List.Perm.swap _ _ _
+
+theorem dgmA1_perm : dgmA1.Perm ((5, some 5) :: dgmA) := List.Perm.swap _ _ _
+
+theorem dgmB2_perm : dgmB2.Perm (diagDgm [5, 6] ++ dgmB) :=
+  ((List.Perm.swap ((5 : ℝ), some (5 : ℝ)) (1, some 2) []).cons (6, some 6)).trans (List.Perm.swap _ _ _)
+
+theorem dgmA2_perm : dgmA2.Perm (diagDgm [5, 6] ++ dgmA) :=
+  (List.perm_middle (l₁ := [((0 : ℝ), some (3 : ℝ))]) (a := (5, some 5)) (l₂ := [(1, some 4), (6, some 6), (2, none)])).trans
+    ((List.perm_middle (l₁ := [((0 : ℝ), some (3 : ℝ)), (1, some 4)]) (a := (6, some 6)) (l₂ := [(2, none)])).cons (5, some 5))
+
+theorem dgmA_reverse_perm : dgmA.reverse.Perm dgmA := List.reverse_perm dgmA
+
+theorem dgmA_reverse_ne : dgmA.reverse ≠ dgmA := by simp [dgmA]
+
+-- `model_bn_is_spec`, `model_bn_symm`, `model_bn_oracle_irrelevant`, `model_bn_triangle`,
+-- `model_bn_triangle_oracles`, `model_bn_nonneg`: the metric laws on three different diagrams
+example : ∃ (o : Bottleneck.Graph → Bottleneck.Matching) (vAB vBA vBC vAC : ℝ), Bottleneck.OracleMax o ∧
+    ProperDgm dgmA ∧ ProperDgm dgmB ∧ ProperDgm dgmC ∧
+    BnReturns o dgmA dgmB vAB ∧ BnReturns o dgmB dgmA vBA ∧ BnReturns o dgmB dgmC vBC ∧ BnReturns o dgmA dgmC vAC ∧
+    vAB = vBA ∧ vAC ≤ vAB + vBC ∧ 0 ≤ vAB := by
   obtain ⟨o, ho⟩ := C01.oracleMax_exists
-  have hp : ((1, some 2) :: (5, some 5) :: [] : List (ℝ × Option ℝ)).Perm ((5, some 5) :: dgmB) := List.Perm.swap _ _ _
+  obtain ⟨vAB, hAB, -⟩ := model_bn_is_spec ho dgmA_proper dgmB_proper
+  obtain ⟨vBA, hBA, -⟩ := model_bn_is_spec ho dgmB_proper dgmA_proper
+  obtain ⟨vBC, hBC, -⟩ := model_bn_is_spec ho dgmB_proper dgmC_proper
+  obtain ⟨vAC, hAC, -⟩ := model_bn_is_spec ho dgmA_proper dgmC_proper
+  have _h1 : vAB = vAB := model_bn_oracle_irrelevant ho ho dgmA_proper dgmB_proper hAB hAB
+  have _h2 : vAC ≤ vAB + vBC := model_bn_triangle_oracles ho ho ho dgmA_proper dgmB_proper dgmC_proper hAB hBC hAC
+  exact ⟨o, vAB, vBA, vBC, vAC, ho, dgmA_proper, dgmB_proper, dgmC_proper, hAB, hBA, hBC, hAC,
+    model_bn_symm ho ho dgmA_proper dgmB_proper hAB hBA,
+    model_bn_triangle ho dgmA_proper dgmB_proper dgmC_proper hAB hBC hAC,
+    model_bn_nonneg ho dgmA_proper dgmB_proper hAB⟩
+
+-- `model_bn_reorder_zero`, `model_bn_perm_invariant`: a genuinely different order of `dgmA`; the runs exist
+example : ∃ (o : Bottleneck.Graph → Bottleneck.Matching) (v vAB vAB' : ℝ), Bottleneck.OracleMax o ∧ ProperDgm dgmA ∧
+    dgmA.Perm dgmA.reverse ∧ dgmA.reverse ≠ dgmA ∧ BnReturns o dgmA dgmA.reverse v ∧ v = 0 ∧
+    BnReturns o dgmA dgmB vAB ∧ BnReturns o dgmA.reverse dgmB vAB' ∧ vAB' = vAB := by
+  obtain ⟨o, ho⟩ := C01.oracleMax_exists
+  have hp : dgmA.Perm dgmA.reverse := dgmA_reverse_perm.symm
+  obtain ⟨v, hv, -⟩ := model_bn_is_spec ho dgmA_proper (dgmA_proper.perm hp.symm)
+  obtain ⟨vAB, hAB, -⟩ := model_bn_is_spec ho dgmA_proper dgmB_proper
+  obtain ⟨vAB', hAB', -⟩ := model_bn_is_spec ho (dgmA_proper.perm hp.symm) dgmB_proper
+  exact ⟨o, v, vAB, vAB', ho, dgmA_proper, hp, dgmA_reverse_ne, hv, model_bn_reorder_zero ho dgmA_proper hp hv, hAB,
+    hAB', model_bn_perm_invariant ho ho dgmA_proper dgmB_proper hp.symm (List.Perm.refl _) hAB hAB'⟩
+
+-- `model_bn_add_diagonal`, `_left`, `_list`, `_list_left` (the diagonal points inserted in the middle),
+-- `model_bn_translate`, `model_bn_scale`, `model_bn_scale_nonneg` at `l = 0`: all runs exist
+example : ∃ (o : Bottleneck.Graph → Bottleneck.Matching) (v v1 v1' v1l v1l' v2 v3 v4 : ℝ), Bottleneck.OracleMax o ∧
+    BnReturns o dgmA dgmB v ∧ BnReturns o dgmA dgmB1 v1 ∧ BnReturns o dgmA1 dgmB v1' ∧
+    BnReturns o dgmA dgmB2 v1l ∧ BnReturns o dgmA2 dgmB v1l' ∧
+    BnReturns o (shiftDgm 7 dgmA) (shiftDgm 7 dgmB) v2 ∧ BnReturns o (scaleDgm 3 dgmA) (scaleDgm 3 dgmB) v3 ∧
+    BnReturns o (scaleDgm 0 dgmA) (scaleDgm 0 dgmB) v4 ∧
+    v1 = v ∧ v1' = v ∧ v1l = v ∧ v1l' = v ∧ v2 = v ∧ v3 = 3 * v ∧ v4 = 0 * v := by
+  obtain ⟨o, ho⟩ := C01.oracleMax_exists
   obtain ⟨v, hv, -⟩ := model_bn_is_spec ho dgmA_proper dgmB_proper
-  obtain ⟨v1, hv1, -⟩ := model_bn_is_spec ho dgmA_proper ((dgmB_proper.cons_diag 5).perm hp)
+  obtain ⟨v1, hv1, -⟩ := model_bn_is_spec ho dgmA_proper ((dgmB_proper.cons_diag 5).perm dgmB1_perm)
+  obtain ⟨v1', hv1', -⟩ := model_bn_is_spec ho ((dgmA_proper.cons_diag 5).perm dgmA1_perm) dgmB_proper
+  obtain ⟨v1l, hv1l, -⟩ := model_bn_is_spec ho dgmA_proper ((dgmB_proper.append_diag [5, 6]).perm dgmB2_perm)
+  obtain ⟨v1l', hv1l', -⟩ := model_bn_is_spec ho ((dgmA_proper.append_diag [5, 6]).perm dgmA2_perm) dgmB_proper
   obtain ⟨v2, hv2, -⟩ := model_bn_is_spec ho (dgmA_proper.shift 7) (dgmB_proper.shift 7)
   obtain ⟨v3, hv3, -⟩ := model_bn_is_spec ho (dgmA_proper.scale (l := 3) (by norm_num)) (dgmB_proper.scale (l := 3) (by norm_num))
-  exact ⟨o, v, v1, v2, v3, ho, hv, hv1, hv2, hv3,
-    model_bn_add_diagonal ho ho dgmA_proper dgmB_proper 5 hp hv hv1,
+  obtain ⟨v4, hv4, -⟩ := model_bn_is_spec ho (dgmA_proper.scale (l := 0) le_rfl) (dgmB_proper.scale (l := 0) le_rfl)
+  exact ⟨o, v, v1, v1', v1l, v1l', v2, v3, v4, ho, hv, hv1, hv1', hv1l, hv1l', hv2, hv3, hv4,
+    model_bn_add_diagonal ho ho dgmA_proper dgmB_proper 5 dgmB1_perm hv hv1,
+    model_bn_add_diagonal_left ho ho dgmA_proper dgmB_proper 5 dgmA1_perm hv hv1',
+    model_bn_add_diagonal_list ho ho dgmA_proper dgmB_proper [5, 6] dgmB2_perm hv hv1l,
+    model_bn_add_diagonal_list_left ho ho dgmA_proper dgmB_proper [5, 6] dgmA2_perm hv hv1l',
     model_bn_translate ho ho dgmA_proper dgmB_proper 7 hv hv2,
-    model_bn_scale ho ho dgmA_proper dgmB_proper (by norm_num) hv hv3⟩
+    model_bn_scale ho ho dgmA_proper dgmB_proper (by norm_num) hv hv3,
+    model_bn_scale_nonneg ho ho dgmA_proper dgmB_proper le_rfl hv hv4⟩
 
--- against a side that is emptied by the filter, and bottleneck ≤ Wasserstein, with existing runs
-example : ∃ (o : Bottleneck.Graph → Bottleneck.Matching) (l : Wasserstein.Mat ℝ → List (Nat × Nat)) (v w v0 w0 : ℝ),
+-- `model_bn_vs_empty`, `model_bn_vs_empty_left`: against a side emptied by the filter the model returns exactly
+-- `max persistence / 2 = 3/2`, on either side
+example : ∃ (o : Bottleneck.Graph → Bottleneck.Matching) (v0 v0' : ℝ), Bottleneck.OracleMax o ∧
+    Wasserstein.finitePart dgmE = [] ∧ BnReturns o dgmA dgmE v0 ∧ BnReturns o dgmE dgmA v0' ∧
+    v0 = 3 / 2 ∧ v0' = 3 / 2 := by
+  obtain ⟨o, ho⟩ := C01.oracleMax_exists
+  obtain ⟨v0, hv0, -⟩ := model_bn_is_spec ho dgmA_proper dgmE_proper
+  obtain ⟨v0', hv0', -⟩ := model_bn_is_spec ho dgmE_proper dgmA_proper
+  have hfin : ∀ (x : ℝ), (∀ p ∈ Wasserstein.finitePart dgmA, (p.2 - p.1) / 2 ≤ x) ↔ (3 / 2 ≤ x) := by
+    intro x
+    simp only [dgmA, Wasserstein.finitePart, List.filterMap_cons, List.filterMap_nil, List.mem_cons,
+      List.not_mem_nil, or_false, forall_eq_or_imp, forall_eq]
+    norm_num
+  have key : ∀ v : ℝ, ((0 ≤ v ∧ ∀ p ∈ Wasserstein.finitePart dgmA, (p.2 - p.1) / 2 ≤ v) ∧
+      ∀ v', 0 ≤ v' → (∀ p ∈ Wasserstein.finitePart dgmA, (p.2 - p.1) / 2 ≤ v') → v ≤ v') → v = 3 / 2 := by
+    rintro v ⟨⟨-, hub⟩, hleast⟩
+    exact le_antisymm (hleast (3 / 2) (by norm_num) ((hfin _).mpr le_rfl)) ((hfin v).mp hub)
+  exact ⟨o, v0, v0', ho, dgmE_finitePart, hv0, hv0',
+    key v0 (model_bn_vs_empty ho dgmA_proper dgmE_finitePart hv0),
+    key v0' (model_bn_vs_empty_left ho dgmA_proper dgmE_finitePart hv0')⟩
+
+-- `model_ws_is_spec`, `model_ws_symm`, `model_ws_solver_irrelevant`, `model_ws_triangle`,
+-- `model_ws_triangle_solvers` (proper middle diagram `dgmB`), `model_ws_nonneg`, `model_ws_reorder_zero`,
+-- `model_ws_perm_invariant`
+example : ∃ (l : Wasserstein.Mat ℝ → List (Nat × Nat)) (wAB wBA wBC wAC wAA wAB' : ℝ), WsLemmas.LsaContract l ∧
+    WsReturns l dgmA dgmB wAB ∧ WsReturns l dgmB dgmA wBA ∧ WsReturns l dgmB dgmC wBC ∧ WsReturns l dgmA dgmC wAC ∧
+    WsReturns l dgmA dgmA.reverse wAA ∧ WsReturns l dgmA.reverse dgmB wAB' ∧
+    wAB = wBA ∧ wAC ≤ wAB + wBC ∧ 0 ≤ wAB ∧ wAA = 0 ∧ wAB' = wAB := by
+  obtain ⟨l, hl⟩ := C02.lsaContract_satisfiable (K := ℝ)
+  obtain ⟨wAB, hAB, -⟩ := model_ws_is_spec hl dgmA dgmB
+  obtain ⟨wBA, hBA, -⟩ := model_ws_is_spec hl dgmB dgmA
+  obtain ⟨wBC, hBC, -⟩ := model_ws_is_spec hl dgmB dgmC
+  obtain ⟨wAC, hAC, -⟩ := model_ws_is_spec hl dgmA dgmC
+  obtain ⟨wAA, hAA, -⟩ := model_ws_is_spec hl dgmA dgmA.reverse
+  obtain ⟨wAB', hAB', -⟩ := model_ws_is_spec hl dgmA.reverse dgmB
+  have hB : ∀ p ∈ Wasserstein.finitePart dgmB, p.1 ≤ p.2 := (properDgm_iff dgmB).mp dgmB_proper
+  have _h1 : wAB = wAB := model_ws_solver_irrelevant hl hl hAB hAB
+  have _h2 : wAC ≤ wAB + wBC := model_ws_triangle_solvers hl hl hl hB hAB hBC hAC
+  exact ⟨l, wAB, wBA, wBC, wAC, wAA, wAB', hl, hAB, hBA, hBC, hAC, hAA, hAB',
+    model_ws_symm hl hl hAB hBA, model_ws_triangle hl hB hAB hBC hAC,
+    model_ws_nonneg hl dgmA_proper dgmB_proper hAB,
+    model_ws_reorder_zero hl dgmA_proper dgmA_reverse_perm.symm hAA,
+    model_ws_perm_invariant hl hl dgmA_reverse_perm (List.Perm.refl _) hAB hAB'⟩
+
+-- `model_ws_add_diagonal`, `_left`, `_list`, `_list_left`, `model_ws_translate`, `model_ws_scale` (at `c = 3` and `c = 0`)
+example : ∃ (l : Wasserstein.Mat ℝ → List (Nat × Nat)) (w w1 w1' w1l w1l' w2 w3 w4 : ℝ), WsLemmas.LsaContract l ∧
+    WsReturns l dgmA dgmB w ∧ WsReturns l dgmA dgmB1 w1 ∧ WsReturns l dgmA1 dgmB w1' ∧
+    WsReturns l dgmA dgmB2 w1l ∧ WsReturns l dgmA2 dgmB w1l' ∧
+    WsReturns l (shiftDgm 7 dgmA) (shiftDgm 7 dgmB) w2 ∧ WsReturns l (scaleDgm 3 dgmA) (scaleDgm 3 dgmB) w3 ∧
+    WsReturns l (scaleDgm 0 dgmA) (scaleDgm 0 dgmB) w4 ∧
+    w1 = w ∧ w1' = w ∧ w1l = w ∧ w1l' = w ∧ w2 = w ∧ w3 = 3 * w ∧ w4 = 0 * w := by
+  obtain ⟨l, hl⟩ := C02.lsaContract_satisfiable (K := ℝ)
+  obtain ⟨w, hw, -⟩ := model_ws_is_spec hl dgmA dgmB
+  obtain ⟨w1, hw1, -⟩ := model_ws_is_spec hl dgmA dgmB1
+  obtain ⟨w1', hw1', -⟩ := model_ws_is_spec hl dgmA1 dgmB
+  obtain ⟨w1l, hw1l, -⟩ := model_ws_is_spec hl dgmA dgmB2
+  obtain ⟨w1l', hw1l', -⟩ := model_ws_is_spec hl dgmA2 dgmB
+  obtain ⟨w2, hw2, -⟩ := model_ws_is_spec hl (shiftDgm 7 dgmA) (shiftDgm 7 dgmB)
+  obtain ⟨w3, hw3, -⟩ := model_ws_is_spec hl (scaleDgm 3 dgmA) (scaleDgm 3 dgmB)
+  obtain ⟨w4, hw4, -⟩ := model_ws_is_spec hl (scaleDgm 0 dgmA) (scaleDgm 0 dgmB)
+  exact ⟨l, w, w1, w1', w1l, w1l', w2, w3, w4, hl, hw, hw1, hw1', hw1l, hw1l', hw2, hw3, hw4,
+    model_ws_add_diagonal hl hl 5 dgmB1_perm hw hw1,
+    model_ws_add_diagonal_left hl hl 5 dgmA1_perm hw hw1',
+    model_ws_add_diagonal_list hl hl [5, 6] dgmB2_perm hw hw1l,
+    model_ws_add_diagonal_list_left hl hl [5, 6] dgmA2_perm hw hw1l',
+    model_ws_translate hl hl 7 hw hw2,
+    model_ws_scale hl hl (by norm_num) hw hw3,
+    model_ws_scale hl hl le_rfl hw hw4⟩
+
+-- `model_bn_le_ws`, `model_ws_vs_empty`, `model_ws_vs_empty_left`: against a side that is emptied by the filter,
+-- and bottleneck ≤ Wasserstein, with existing runs
+example : ∃ (o : Bottleneck.Graph → Bottleneck.Matching) (l : Wasserstein.Mat ℝ → List (Nat × Nat)) (v w w0 w0' : ℝ),
     BnReturns o dgmA dgmB v ∧ WsReturns l dgmA dgmB w ∧ v ≤ w ∧
-    BnReturns o dgmA [(9, none)] v0 ∧ WsReturns l dgmA [(9, none)] w0 ∧
-    w0 = (3 - 0) / Real.sqrt 2 + ((4 - 1) / Real.sqrt 2 + 0) := by
+    WsReturns l dgmA dgmE w0 ∧ WsReturns l dgmE dgmA w0' ∧
+    w0 = (3 - 0) / Real.sqrt 2 + ((4 - 1) / Real.sqrt 2 + 0) ∧
+    w0' = (3 - 0) / Real.sqrt 2 + ((4 - 1) / Real.sqrt 2 + 0) := by
   obtain ⟨o, ho⟩ := C01.oracleMax_exists
   obtain ⟨l, hl⟩ := C02.lsaContract_satisfiable (K := ℝ)
-  have hE : ProperDgm [((9 : ℝ), (none : Option ℝ))] := by
-    rw [properDgm_iff]; intro p hp; simp [Wasserstein.finitePart] at hp
   obtain ⟨v, hv, -⟩ := model_bn_is_spec ho dgmA_proper dgmB_proper
   obtain ⟨w, hw, -⟩ := model_ws_is_spec hl dgmA dgmB
-  obtain ⟨v0, hv0, -⟩ := model_bn_is_spec ho dgmA_proper hE
-  obtain ⟨w0, hw0, -⟩ := model_ws_is_spec hl dgmA [(9, none)]
-  refine ⟨o, l, v, w, v0, w0, hv, hw, model_bn_le_ws ho hl dgmA_proper dgmB_proper hv hw, hv0, hw0, ?_⟩
-  rw [model_ws_vs_empty hl (d2 := [(9, none)]) rfl hw0]
-  simp [dgmA, Wasserstein.finitePart]
+  obtain ⟨w0, hw0, -⟩ := model_ws_is_spec hl dgmA dgmE
+  obtain ⟨w0', hw0', -⟩ := model_ws_is_spec hl dgmE dgmA
+  refine ⟨o, l, v, w, w0, w0', hv, hw, model_bn_le_ws ho hl dgmA_proper dgmB_proper hv hw, hw0, hw0', ?_, ?_⟩
+  · rw [model_ws_vs_empty hl dgmE_finitePart hw0]
+    simp [dgmA, Wasserstein.finitePart]
+  · rw [model_ws_vs_empty_left hl dgmE_finitePart hw0']
+    simp [dgmA, Wasserstein.finitePart]
+
+/-! ### `ProperDgm` is necessary: the laws that carry it FAIL for the models on improper inputs
+
+The real code returns `bottleneck([[1,0]],[[1,0]]) = -0.5` and `wasserstein([[1,0]],[[1,0]]) = -1.414…`.  So do
+the models, for every oracle / solver honouring its contract. -/
+
+/-- the improper one-point diagram `[(1, 0)]` (birth `1` > death `0`) -/
+def dgmImproper : List (ℝ × Option ℝ) := [(1, some 0)]
+
+theorem dgmImproper_not_proper : ¬ ProperDgm dgmImproper := by
+  intro h
+  have := h (1, 0) (by simp [dgmImproper, Bottleneck.finitePart, Bottleneck.filterFinite])
+  norm_num at this
+
+open PersimVerif.Bottleneck in
+/-- the anti-diagonal of the augmented matrix `[[0, -1/2], [-1/2, 0]]` is a perfect matching at threshold `-1/2`
+    (`C01.guard_needed`, over `ℝ`) -/
+private theorem improper_hasPerfect :
+    HasPerfect 2 (augD [((1 : ℝ), (0 : ℝ))] [((1 : ℝ), (0 : ℝ))]) (.fin (-1 / 2)) := by
+  refine ⟨[(0, 1), (1, 0)], ⟨?_, by decide, by decide⟩, rfl⟩
+  intro p hp
+  simp only [List.mem_cons, List.mem_nil_iff, or_false] at hp
+  rcases hp with rfl | rfl
+  · refine (edge_threshold _ _ _ _ _).mpr ⟨by norm_num, by norm_num, ?_⟩
+    rw [augD_ur _ _ (by simp) (by simp)]
+    simp [diagInf]
+  · refine (edge_threshold _ _ _ _ _).mpr ⟨by norm_num, by norm_num, ?_⟩
+    rw [augD_ll _ _ (by simp) (by simp)]
+    simp [diagInf]
+
+open PersimVerif.Bottleneck in
+/-- **`improper_bn_negative`**: on the improper diagram `[(1,0)]` against itself the bottleneck model returns
+    `-1/2`, for EVERY oracle honouring the contract (the bisect loop ends at the least candidate whose threshold
+    graph has a perfect matching, `C01.bsearch_least`; at `-1/2` the anti-diagonal is one).  So without
+    `ProperDgm` non-negativity (`model_bn_nonneg`) fails, and so does zero-on-reordering
+    (`model_bn_reorder_zero`: the diagram is a reordering of itself). -/
+theorem improper_bn_negative {o : Graph → Matching} (ho : OracleMax o) :
+    ¬ ProperDgm dgmImproper ∧ dgmImproper.Perm dgmImproper ∧
+      BnReturns o dgmImproper dgmImproper (-1 / 2) ∧ ¬ (0 : ℝ) ≤ -1 / 2 ∧ (-1 / 2 : ℝ) ≠ 0 := by
+  refine ⟨dgmImproper_not_proper, List.Perm.refl _, ?_, by norm_num, by norm_num⟩
+  obtain ⟨r, mt, hs, hmem, -, hleast, -⟩ := C01.bsearch_least (K := ℝ) ho (n := 2) (by norm_num)
+    (augD [((1 : ℝ), (0 : ℝ))] [((1 : ℝ), (0 : ℝ))])
+  have hle := hleast _ improper_hasPerfect
+  obtain ⟨i, hi, j, hj, hij⟩ := (mem_candidates _ _ _).mp hmem
+  have hr : r = .fin (-1 / 2) := by
+    have hi' : i = 0 ∨ i = 1 := by omega
+    have hj' : j = 0 ∨ j = 1 := by omega
+    rcases hi' with rfl | rfl <;> rcases hj' with rfl | rfl
+    · rw [augD_ul _ _ (by simp) (by simp)] at hij
+      rw [hij] at hle
+      have := Ext.fin_le_fin.mp hle
+      norm_num [linf] at this
+    · rw [augD_ur _ _ (by simp) (by simp)] at hij
+      rw [hij]; simp [diagInf]
+    · rw [augD_ll _ _ (by simp) (by simp)] at hij
+      rw [hij]; simp [diagInf]
+    · rw [augD_lr _ _ (by simp) (by simp)] at hij
+      rw [hij] at hle
+      have := Ext.fin_le_fin.mp hle
+      norm_num at this
+  subst hr
+  refine ⟨⟨.fin (-1 / 2), mt, false, false⟩, ?_, rfl⟩
+  have hf : filterFinite dgmImproper = ([((1 : ℝ), (0 : ℝ))], false) := filterFinite_lift [((1 : ℝ), (0 : ℝ))]
+  simp only [bottleneck, hf, bottleneckCore, withPlaceholder]
+  simp only [List.isEmpty_cons, Bool.false_eq_true, ↓reduceIte, List.length_cons, List.length_nil]
+  rw [hs]
+
+/-- two one-point diagrams for which sending both points to the diagonal is at most as expensive as pairing them:
+    the Wasserstein value is the sum of the two diagonal costs -/
+private theorem isWs_one_one (S T : Fin 1 → Pt) (h : diagL2 (S 0) + diagL2 (T 0) ≤ euclid (S 0) (T 0)) :
+    IsWs S T (diagL2 (S 0) + diagL2 (T 0)) := by
+  constructor
+  · refine ⟨PM.empty, ?_⟩
+    simp [PM.sumCost, PM.rowCost, PM.colCost, PM.empty, uW]
+  · intro p
+    simp only [PM.sumCost, Fin.sum_univ_one, PM.rowCost, PM.colCost]
+    cases hf : p.f 0 with
+    | none =>
+      have hg : p.g 0 = none := by
+        cases hg : p.g 0 with
+        | none => rfl
+        | some i =>
+          have hi : i = 0 := Subsingleton.elim _ _
+          subst hi
+          have := (p.fg 0 0).mpr hg
+          rw [hf] at this; cases this
+      simp [hg, uW]
+    | some j =>
+      have hj : j = 0 := Subsingleton.elim _ _
+      subst hj
+      have hg : p.g 0 = some 0 := (p.fg 0 0).mp hf
+      simp only [hg, add_zero]
+      exact h
+
+/-- **`improper_ws_negative`**: on the improper diagram `[(1,0)]` against itself the Wasserstein model returns
+    `-2/√2 = -√2 ≈ -1.414`, for EVERY solver honouring the contract.  So without `ProperDgm` non-negativity
+    (`model_ws_nonneg`) fails, and so does zero-on-reordering (`model_ws_reorder_zero`). -/
+theorem improper_ws_negative {l : Wasserstein.Mat ℝ → List (Nat × Nat)} (hl : WsLemmas.LsaContract l) :
+    ¬ ProperDgm dgmImproper ∧ dgmImproper.Perm dgmImproper ∧
+      ∃ w, WsReturns l dgmImproper dgmImproper w ∧ w = -2 / Real.sqrt 2 ∧ w = -Real.sqrt 2 ∧ w < 0 := by
+  refine ⟨dgmImproper_not_proper, List.Perm.refl _, ?_⟩
+  obtain ⟨w, hw, hs⟩ := model_ws_is_spec hl dgmImproper dgmImproper
+  have hsq : (0 : ℝ) < Real.sqrt 2 := Real.sqrt_pos.mpr (by norm_num)
+  have key : IsWs (Wasserstein.finitePart dgmImproper).get (Wasserstein.finitePart dgmImproper).get
+      (diagL2 (1, 0) + diagL2 (1, 0)) := by
+    refine isWs_one_one (Wasserstein.finitePart dgmImproper).get (Wasserstein.finitePart dgmImproper).get ?_
+    show diagL2 (1, 0) + diagL2 (1, 0) ≤ euclid (1, 0) (1, 0)
+    rw [euclid_self]
+    have : diagL2 (1, 0) < 0 := by
+      unfold diagL2
+      apply div_neg_of_neg_of_pos _ hsq
+      norm_num
+    linarith
+  have e : w = diagL2 (1, 0) + diagL2 (1, 0) := IsMinSum.unique hs key
+  have e2 : w = -2 / Real.sqrt 2 := by rw [e]; unfold diagL2; ring
+  refine ⟨w, hw, e2, ?_, ?_⟩
+  · rw [e2]
+    have := Real.mul_self_sqrt (show (0 : ℝ) ≤ 2 by norm_num)
+    field_simp
+    linarith
+  · rw [e2]; exact div_neg_of_neg_of_pos (by norm_num) hsq
+
+/-- **`improper_bn_le_ws_fails`**: on `[(1,0)]` against itself the bottleneck model returns `-1/2` and the
+    Wasserstein model `-√2 < -1/2`: `model_bn_le_ws` fails without `ProperDgm` -/
+theorem improper_bn_le_ws_fails {o : Bottleneck.Graph → Bottleneck.Matching} (ho : Bottleneck.OracleMax o)
+    {l : Wasserstein.Mat ℝ → List (Nat × Nat)} (hl : WsLemmas.LsaContract l) :
+    ∃ v w, BnReturns o dgmImproper dgmImproper v ∧ WsReturns l dgmImproper dgmImproper w ∧ ¬ v ≤ w := by
+  obtain ⟨-, -, hv, -, -⟩ := improper_bn_negative ho
+  obtain ⟨-, -, w, hw, -, e, -⟩ := improper_ws_negative hl
+  refine ⟨_, w, hv, hw, ?_⟩
+  rw [e, not_le]
+  have h1 : (1 : ℝ) ≤ Real.sqrt 2 := by
+    rw [show (1 : ℝ) = Real.sqrt 1 by simp]
+    exact Real.sqrt_le_sqrt (by norm_num)
+  linarith
+
+/-- **`improper_ws_triangle_fails`**: with the improper `[(1,0)]` as the MIDDLE diagram between two empty
+    diagrams, the Wasserstein model returns `0` for the outer pair and `-1/√2` for each leg:
+    `model_ws_triangle` fails without properness of the middle diagram -/
+theorem improper_ws_triangle_fails {l : Wasserstein.Mat ℝ → List (Nat × Nat)} (hl : WsLemmas.LsaContract l) :
+    ∃ w12 w23 w13, WsReturns l [] dgmImproper w12 ∧ WsReturns l dgmImproper [] w23 ∧ WsReturns l [] [] w13 ∧
+      ¬ w13 ≤ w12 + w23 := by
+  obtain ⟨w12, h12, -⟩ := model_ws_is_spec hl [] dgmImproper
+  obtain ⟨w23, h23, -⟩ := model_ws_is_spec hl dgmImproper []
+  obtain ⟨w13, h13, -⟩ := model_ws_is_spec hl [] []
+  refine ⟨w12, w23, w13, h12, h23, h13, ?_⟩
+  have hsq : (0 : ℝ) < Real.sqrt 2 := Real.sqrt_pos.mpr (by norm_num)
+  have e12 := model_ws_vs_empty_left hl (d1 := []) (d2 := dgmImproper) rfl h12
+  have e23 := model_ws_vs_empty hl (d1 := dgmImproper) (d2 := []) rfl h23
+  have e13 := model_ws_vs_empty hl (d1 := []) (d2 := []) rfl h13
+  have hneg : ((0 : ℝ) - 1) / Real.sqrt 2 < 0 := div_neg_of_neg_of_pos (by norm_num) hsq
+  simp only [dgmImproper, Wasserstein.finitePart, List.filterMap_cons, List.filterMap_nil, List.map_cons,
+    List.map_nil, List.sum_cons, List.sum_nil, add_zero] at e12 e23 e13
+  rw [e12, e23, e13, not_le]
+  linarith
 
 end
 
